@@ -598,10 +598,15 @@ def c10():
         sig = {"inv": inv, "verdict": c["verdict"], "duplicate_label": dup_label, "annotated_shift": ann_shift}
         v.violation("%s: front end says %s for: %s %s" % (inv, c["verdict"], c["text"].replace("\n", " ; ")[:200], c.get("detail", "")), {"case": c}, sig)
     acc = sum(1 for c in cases if c["verdict"] == "accept")
+    # annotation types (function signatures, process types, cut annotations): Typing.tla decides them; a program accepted although one of its
+    # annotation types is ill-formed is attributed to this property (relaxation "wf")
+    import typing_oracle
+    tyc = typing_oracle.report(v, "C10", typing_oracle.stage())
     cov = {"states": max(1, st), "transitions": max(1, ge), "traces_validated_against_impl": len(cases) - len(fails),
            "samples": [{"text": c["text"], "verdict": c["verdict"]} for c in cases[:3] + cases[-2:]],
            "definition_sets": len(cases), "accepted": acc, "rejected": sum(1 for c in cases if c["verdict"] == "reject"),
            "parse_errors_skipped": len(camp["cases"]) - len(cases), "shape_sets": camp["shapes"]}
+    cov.update(tyc)
     vlib.write_evidence("C10", "model_checking", cov, time.time() - t0, len(v.violations),
                         ["definition sequences of length <= 3 over the shape grammar of TypeEnum.tla (+ ill-formed shapes, duplicates, undefined references, contradicting annotations), rendered to text and passed through the real parser and Typecheck"])
     return v.finish()
